@@ -507,6 +507,7 @@ func (p *parser) parseTypedDecl() *Decl {
 		Var:   &Var{token: p.cur, Name: varName},
 	}
 	p.advance() // advance past IDENT
+	p.assertToken(lexer.COLON)
 	p.advance() // advance past `:`
 	v := p.parseType()
 	if v == nil {
